@@ -146,10 +146,16 @@ func propC01(c *Ctx) int {
 					cuts = append(cuts, rng.Intn(L+1))
 				}
 			}
-			for _, cut := range cuts {
+			for ci, cut := range cuts {
+				// thorough: every position with 2 symbolic bytes, every 8th position with 3 (every
+				// position with 3 bytes is ~3 h of solver time and was never run to the end: not registered)
+				hk := k
+				if thorough && ci%8 != 0 {
+					hk = 2
+				}
 				j := base
-				j.Name, j.Fn = fmt.Sprintf("hole doc#%d mode=%d cut=%d +%dB", doc, mode, cut, k), "HBuildHole"
-				j.Params = map[string]int64{"doc": int64(doc), "cut": int64(cut), "k": int64(k), "mode": int64(mode)}
+				j.Name, j.Fn = fmt.Sprintf("hole doc#%d mode=%d cut=%d +%dB", doc, mode, cut, hk), "HBuildHole"
+				j.Params = map[string]int64{"doc": int64(doc), "cut": int64(cut), "k": int64(hk), "mode": int64(mode)}
 				j.Quiet = true
 				c.RunJob(j)
 			}
@@ -198,7 +204,9 @@ func propC01(c *Ctx) int {
 	}
 	// the NewLocation contract the stub relies on
 	locationContractJobs(c, 4)
+	holeNote := "hole family (HBuildHole): symbolic bytes cut into 5 representative documents, truncating and substituting; quick: 12 sampled cuts per document and mode with 2 bytes; thorough: EVERY position with 2 bytes and every 8th position with 3 bytes (every position with 3 bytes needs ~3 h of solver time and was never run to the end: not part of the registered bound)"
 	return c.Finish("model_checking", []string{
+		holeNote,
 		"schema matrix (HSchemaMatrix): 74 fragments of the schema language (every type by name, every rule with the types it applies to, enums inline and by name, references, or with rule sets, allOf, additionalProperties with each of its 19 values) x 11 places a schema value can stand (root / property of a type, array item, response, request, Query / Path / Headers property, JSON-RPC Params and Result, same-code responses): the build terminates without a panic",
 		corpusNote,
 		fmt.Sprintf("bounds: root file of <= %d arbitrary bytes; %d arbitrary bytes after each of %d witness prefixes (harness/core/zz_verif_prefixes.go); macro graphs <= 3 macros; include graphs <= 3 files + root; per-path budget 3e6 SSA steps / call depth 400 (exceeding it = candidate hang / runaway recursion, replayed natively in a subprocess)", maxN, k, NumPrefixes-1),
